@@ -10,7 +10,12 @@ import (
 	jsoniter "github.com/json-iterator/go"
 )
 
-var json = jsoniter.ConfigFastest
+// This is jsoniter.ConfigFastest without MarshalFloatWith6Digits: with only 6 digits, non-integer numbers in
+// job variables would not survive a restart (1e-9 became 0)
+var json = jsoniter.Config{
+	EscapeHTML:                    false,
+	ObjectFieldMustBeSimpleString: true,
+}.Froze()
 
 type PersistedJob struct {
 	ID       uuid.UUID
